@@ -315,6 +315,11 @@ def run(ctx: Ctx) -> None:
     layoutreplay.HEAP["on"] = True
     slices = ("A", "C") if ctx.tier == "quick" else ("A", "B", "C", "D", "E", "F")
     total = layoutreplay.run_slices(ctx, slices, {"A": 1, "C": 1} if ctx.tier == "quick" else {"A": 2, "B": 1, "C": 2, "D": 1, "E": 1, "F": 1}, twins=False)
+    # "loading never mutates the input datum" - also when the input is a mapping that defines __missing__ (Layout replay, probe family)
+    for f in total["C03"]:
+        if f["sig"]["what"] == "loading_wrote_into_the_input":
+            ctx.violation({"what": "loading_wrote_into_the_input", "mapping_with_missing": True}, f["detail"][:260],
+                          {"program": f["case"], "detail": f["detail"], "count": f.get("count", 1)})
     slots = sorted(total["heap"].values(), key=lambda s: json.dumps(s["obs"], sort_keys=True))
     bad = validate(ctx, "Trace_Heap", [s["obs"] for s in slots], tag="HeapLayout")
     ctx.extra["layout_heap_observations"] = sum(s["n"] for s in slots)
